@@ -10,28 +10,275 @@ package code
 // the precondition the panic in the body is unreachable.
 //@ func KIndexFromInt
 //@   prop C04
-//@   arith int
-//@   conversions lossless
+//@   arith bv
 //@   requires 0 <= i && i <= 65535
 //@   modifies nothing
-//@   ensures result0 == i
+//@   ensures int(result0) == i
 
 //@ func Index8FromInt
 //@   prop C04
-//@   arith int
-//@   conversions lossless
+//@   arith bv
 //@   requires 0 <= n && n <= 255
 //@   modifies nothing
-//@   ensures result0 == n
+//@   ensures int(result0) == n
 
 //@ func LoadEtcLookup
-//@   prop C04
-//@   arith int
+//@   prop C04 C01
+//@   arith bv
 //@   requires 0 <= i && i <= 255
 //@   modifies nothing
+//@   ensures (regOK(r1) && regOK(r2)) ==> (!result0.HasType1() && result0.TypePfx() == Type6Pfx && !result0.GetF())
+//@   ensures (regOK(r1) && regOK(r2)) ==> (result0.GetA() == r1 && result0.GetB() == r2 && int(result0.GetM()) == i)
 
 //@ func FillTable
-//@   prop C04
-//@   arith int
+//@   prop C04 C01
+//@   arith bv
 //@   requires 0 <= i && i <= 255
 //@   modifies nothing
+//@   ensures (regOK(r1) && regOK(r2)) ==> (!result0.HasType1() && result0.TypePfx() == Type6Pfx && result0.GetF())
+//@   ensures (regOK(r1) && regOK(r2)) ==> (result0.GetA() == r1 && result0.GetB() == r2 && int(result0.GetM()) == i)
+
+// ---------------------------------------------------------------------------
+// C01 (kernel): the instruction codec is lossless
+// ---------------------------------------------------------------------------
+// The compiler (package ircomp) builds instructions with the constructors of
+// instructions.go; the VM (runtime.LuaCont.RunInThread) dispatches on TypePfx /
+// HasType1 / HasType4a / GetX / GetY / GetJ / GetUnOp and reads the operands with
+// GetA / GetB / GetC / GetF / GetN / GetL / GetM / GetOffset.  For every
+// constructor and all operand values that fit their fields, decoding yields
+// exactly the type, operator and operands that were encoded (fields do not
+// overlap, operators fit their bit widths).
+//@ macro regOK(r) = (r.tp <= 1)
+
+//@ func Combine
+//@   prop C01
+//@   arith bv
+//@   requires op <= 15
+//@   modifies nothing
+//@   ensures (regOK(r1) && regOK(r2) && regOK(r3)) ==> (result0.HasType1() && result0.GetX() == op)
+//@   ensures (regOK(r1) && regOK(r2) && regOK(r3)) ==> (result0.GetA() == r1 && result0.GetB() == r2 && result0.GetC() == r3)
+
+//@ func Transform
+//@   prop C01
+//@   arith bv
+//@   modifies nothing
+//@   ensures (regOK(r1) && regOK(r2)) ==> (!result0.HasType1() && result0.TypePfx() == Type4Pfx && result0.HasType4a() && !result0.GetF() && result0.GetUnOp() == op)
+//@   ensures (regOK(r1) && regOK(r2)) ==> (result0.GetA() == r1 && result0.GetB() == r2)
+
+//@ func Push
+//@   prop C01
+//@   arith bv
+//@   modifies nothing
+//@   ensures (regOK(r1) && regOK(r2)) ==> (!result0.HasType1() && result0.TypePfx() == Type4Pfx && result0.HasType4a() && result0.GetF() && result0.GetUnOp() == OpId)
+//@   ensures (regOK(r1) && regOK(r2)) ==> (result0.GetA() == r1 && result0.GetB() == r2)
+
+//@ func PushEtc
+//@   prop C01
+//@   arith bv
+//@   modifies nothing
+//@   ensures (regOK(r1) && regOK(r2)) ==> (!result0.HasType1() && result0.TypePfx() == Type4Pfx && result0.HasType4a() && result0.GetF() && result0.GetUnOp() == OpEtcId)
+//@   ensures (regOK(r1) && regOK(r2)) ==> (result0.GetA() == r1 && result0.GetB() == r2)
+
+//@ func Upval
+//@   prop C01
+//@   arith bv
+//@   modifies nothing
+//@   ensures (regOK(r1) && regOK(r2)) ==> (!result0.HasType1() && result0.TypePfx() == Type4Pfx && result0.HasType4a() && !result0.GetF() && result0.GetUnOp() == OpUpvalue)
+//@   ensures (regOK(r1) && regOK(r2)) ==> (result0.GetA() == r1 && result0.GetB() == r2)
+
+//@ func Cont
+//@   prop C01
+//@   arith bv
+//@   modifies nothing
+//@   ensures (regOK(r1) && regOK(r2)) ==> (!result0.HasType1() && result0.TypePfx() == Type4Pfx && result0.HasType4a() && !result0.GetF() && result0.GetUnOp() == OpCont)
+//@   ensures (regOK(r1) && regOK(r2)) ==> (result0.GetA() == r1 && result0.GetB() == r2)
+
+//@ func TailCont
+//@   prop C01
+//@   arith bv
+//@   modifies nothing
+//@   ensures (regOK(r1) && regOK(r2)) ==> (!result0.HasType1() && result0.TypePfx() == Type4Pfx && result0.HasType4a() && !result0.GetF() && result0.GetUnOp() == OpTailCont)
+//@   ensures (regOK(r1) && regOK(r2)) ==> (result0.GetA() == r1 && result0.GetB() == r2)
+
+//@ func LoadConst
+//@   prop C01
+//@   arith bv
+//@   modifies nothing
+//@   ensures (regOK(r)) ==> (!result0.HasType1() && result0.TypePfx() == Type3Pfx && !result0.GetF() && result0.GetY() == OpK)
+//@   ensures (regOK(r)) ==> (result0.GetA() == r && result0.GetKIndex() == i && result0.GetN().ToKIndex() == i)
+
+//@ func LoadClosure
+//@   prop C01
+//@   arith bv
+//@   modifies nothing
+//@   ensures (regOK(r1)) ==> (!result0.HasType1() && result0.TypePfx() == Type3Pfx && !result0.GetF() && result0.GetY() == OpClosureK)
+//@   ensures (regOK(r1)) ==> (result0.GetA() == r1 && result0.GetKIndex() == i)
+
+//@ func LoadInt16
+//@   prop C01
+//@   arith bv
+//@   modifies nothing
+//@   ensures (regOK(r)) ==> (!result0.HasType1() && result0.TypePfx() == Type3Pfx && !result0.GetF() && result0.GetY() == OpInt16)
+//@   ensures (regOK(r)) ==> (result0.GetA() == r && result0.GetN().ToInt16() == n)
+
+//@ func LoadSmallInt
+//@   prop C01
+//@   arith bv
+//@   modifies nothing
+//@   ensures (regOK(r)) ==> (result1 <==> (-32768 <= n && n <= 32767))
+//@   ensures (regOK(r)) ==> (result1 ==> !result0.HasType1() && result0.TypePfx() == Type3Pfx && !result0.GetF() && result0.GetY() == OpInt16)
+//@   ensures (regOK(r)) ==> (result1 ==> result0.GetA() == r && int(result0.GetN().ToInt16()) == n)
+
+//@ func LoadStr0
+//@   prop C01
+//@   arith bv
+//@   modifies nothing
+//@   ensures (regOK(r)) ==> (!result0.HasType1() && result0.TypePfx() == Type4Pfx && !result0.HasType4a() && !result0.GetF() && UnOpK(result0.GetUnOp()) == OpStr0)
+//@   ensures (regOK(r)) ==> (result0.GetA() == r)
+
+//@ func LoadBool
+//@   prop C01
+//@   arith bv
+//@   modifies nothing
+//@   ensures (regOK(r)) ==> (!result0.HasType1() && result0.TypePfx() == Type4Pfx && !result0.HasType4a() && !result0.GetF() && UnOpK(result0.GetUnOp()) == OpBool)
+//@   ensures (regOK(r)) ==> (result0.GetA() == r)
+//@   ensures (regOK(r)) ==> (result0.GetL().ToBool() == b)
+
+//@ func LoadEmptyTable
+//@   prop C01
+//@   arith bv
+//@   modifies nothing
+//@   ensures (regOK(r)) ==> (!result0.HasType1() && result0.TypePfx() == Type4Pfx && !result0.HasType4a() && !result0.GetF() && UnOpK(result0.GetUnOp()) == OpTable)
+//@   ensures (regOK(r)) ==> (result0.GetA() == r)
+
+//@ func LoadNil
+//@   prop C01
+//@   arith bv
+//@   modifies nothing
+//@   ensures (regOK(r)) ==> (!result0.HasType1() && result0.TypePfx() == Type4Pfx && !result0.HasType4a() && !result0.GetF() && UnOpK(result0.GetUnOp()) == OpNil)
+//@   ensures (regOK(r)) ==> (result0.GetA() == r)
+
+//@ func Clear
+//@   prop C01
+//@   arith bv
+//@   modifies nothing
+//@   ensures (regOK(r)) ==> (!result0.HasType1() && result0.TypePfx() == Type4Pfx && !result0.HasType4a() && !result0.GetF() && UnOpK(result0.GetUnOp()) == OpClear)
+//@   ensures (regOK(r)) ==> (result0.GetA() == r)
+
+//@ func LoadLookup
+//@   prop C01
+//@   arith bv
+//@   modifies nothing
+//@   ensures (regOK(r1) && regOK(r2) && regOK(r3)) ==> (!result0.HasType1() && result0.TypePfx() == Type2Pfx && !result0.GetF())
+//@   ensures (regOK(r1) && regOK(r2) && regOK(r3)) ==> (result0.GetA() == r1 && result0.GetB() == r2 && result0.GetC() == r3)
+
+//@ func SetIndex
+//@   prop C01
+//@   arith bv
+//@   modifies nothing
+//@   ensures (regOK(r1) && regOK(r2) && regOK(r3)) ==> (!result0.HasType1() && result0.TypePfx() == Type2Pfx && result0.GetF())
+//@   ensures (regOK(r1) && regOK(r2) && regOK(r3)) ==> (result0.GetA() == r1 && result0.GetB() == r2 && result0.GetC() == r3)
+
+//@ func Jump
+//@   prop C01
+//@   arith bv
+//@   modifies nothing
+//@   ensures !result0.HasType1() && result0.TypePfx() == Type5Pfx && !result0.GetF() && result0.GetJ() == OpJump
+//@   ensures result0.GetOffset() == j
+
+//@ func JumpIf
+//@   prop C01
+//@   arith bv
+//@   modifies nothing
+//@   ensures (regOK(r)) ==> (!result0.HasType1() && result0.TypePfx() == Type5Pfx && result0.GetF() && result0.GetJ() == OpJumpIf)
+//@   ensures (regOK(r)) ==> (result0.GetOffset() == j && result0.GetA() == r)
+
+//@ func JumpIfNot
+//@   prop C01
+//@   arith bv
+//@   modifies nothing
+//@   ensures (regOK(r)) ==> (!result0.HasType1() && result0.TypePfx() == Type5Pfx && !result0.GetF() && result0.GetJ() == OpJumpIf)
+//@   ensures (regOK(r)) ==> (result0.GetOffset() == j && result0.GetA() == r)
+
+//@ func Call
+//@   prop C01
+//@   arith bv
+//@   modifies nothing
+//@   ensures (regOK(r)) ==> (!result0.HasType1() && result0.TypePfx() == Type5Pfx && !result0.GetF() && result0.GetJ() == OpCall)
+//@   ensures (regOK(r)) ==> (result0.GetA() == r)
+
+//@ func TailCall
+//@   prop C01
+//@   arith bv
+//@   modifies nothing
+//@   ensures (regOK(r)) ==> (!result0.HasType1() && result0.TypePfx() == Type5Pfx && result0.GetF() && result0.GetJ() == OpCall)
+//@   ensures (regOK(r)) ==> (result0.GetA() == r)
+
+//@ func ClTrunc
+//@   prop C01
+//@   arith bv
+//@   modifies nothing
+//@   ensures !result0.HasType1() && result0.TypePfx() == Type5Pfx && !result0.GetF() && result0.GetJ() == OpClStack
+//@   ensures uint16(result0.GetClStackOffset()) == h
+
+//@ func ClPush
+//@   prop C01
+//@   arith bv
+//@   modifies nothing
+//@   ensures (regOK(r)) ==> (!result0.HasType1() && result0.TypePfx() == Type5Pfx && result0.GetF() && result0.GetJ() == OpClStack)
+//@   ensures (regOK(r)) ==> (result0.GetA() == r)
+
+//@ func Receive
+//@   prop C01
+//@   arith bv
+//@   modifies nothing
+//@   ensures (regOK(r)) ==> (result0.HasType0() && !result0.HasType1() && result0.TypePfx() == Type0Pfx && !result0.GetF())
+//@   ensures (regOK(r)) ==> (result0.GetA() == r)
+
+//@ func ReceiveEtc
+//@   prop C01
+//@   arith bv
+//@   modifies nothing
+//@   ensures (regOK(r)) ==> (result0.HasType0() && !result0.HasType1() && result0.TypePfx() == Type0Pfx && result0.GetF())
+//@   ensures (regOK(r)) ==> (result0.GetA() == r)
+
+//@ func PrepForLoop
+//@   prop C01
+//@   arith bv
+//@   modifies nothing
+//@   ensures (regOK(rStart) && regOK(rStop) && regOK(rStep)) ==> (!result0.HasType1() && result0.TypePfx() == Type7Pfx && !result0.GetF())
+//@   ensures (regOK(rStart) && regOK(rStop) && regOK(rStep)) ==> (result0.GetA() == rStart && result0.GetB() == rStop && result0.GetC() == rStep)
+
+//@ func AdvForLoop
+//@   prop C01
+//@   arith bv
+//@   modifies nothing
+//@   ensures (regOK(rStart) && regOK(rStop) && regOK(rStep)) ==> (!result0.HasType1() && result0.TypePfx() == Type7Pfx && result0.GetF())
+//@   ensures (regOK(rStart) && regOK(rStop) && regOK(rStep)) ==> (result0.GetA() == rStart && result0.GetB() == rStop && result0.GetC() == rStep)
+
+// Patching a resolved jump offset or a renumbered constant index leaves every
+// other field of the instruction as it was.
+//@ func (Opcode).SetOffset
+//@   prop C01
+//@   arith bv
+//@   modifies nothing
+//@   ensures result0.GetOffset() == n && result0 & 0xffff0000 == c & 0xffff0000
+
+//@ func (Opcode).SetKIndex
+//@   prop C01
+//@   arith bv
+//@   modifies nothing
+//@   ensures result0.GetKIndex() == i && result0 & 0xffff0000 == c & 0xffff0000
+
+// Registers are only ever built by these two constructors: the type fits one bit.
+//@ func ValueReg
+//@   prop C01
+//@   arith bv
+//@   modifies nothing
+//@   ensures regOK(result0) && result0.Idx() == idx && !result0.IsCell()
+
+//@ func CellReg
+//@   prop C01
+//@   arith bv
+//@   modifies nothing
+//@   ensures regOK(result0) && result0.Idx() == idx && result0.IsCell()
